@@ -21,7 +21,7 @@ func init() { rt.Register(&c08{}) }
 
 func (c08) ID() string { return "C08" }
 
-var c08Kinds = []string{"plain", "plain-mget", "plain-full", "ordered", "aggr", "aggr-ordered", "aggr-inter", "aggr-inter-ordered", "aggr-all", "delete", "delete-mget", "delete-full"}
+var c08Kinds = []string{"plain", "plain-mget", "plain-full", "plain-named", "ordered", "aggr", "aggr-ordered", "aggr-inter", "aggr-inter-ordered", "aggr-all", "delete", "delete-mget", "delete-full"}
 
 // counts near the top of the integer range ("everything after the offset")
 var c08Huge = []int{math.MaxInt64, math.MaxInt64 - 1, 1 << 62}
@@ -63,7 +63,7 @@ func (c08) NumCases(tier string) int    { return len(c08Cells(tier)) }
 func (c08) Exhaustive(tier string) bool { return true }
 
 func (c08) Rule() string {
-	return "exhaustive grid: per batch size B in {1,2,3} (quick) / {1,2,3,4,5,8} (thorough): offset 0..3B+1 x count 0..3B+1 x result size 0..4B+1; for B=32 offsets/counts/sizes around multiples of 32; x {plain over prefix/point-read/full scans, ordered with ties, aggregated (one group per pair), aggregated with groups interleaved in key order, each also ordered, aggregated without GROUP BY (one row), delete over prefix/point-read/full scans} x {row, batch}; 'limit n' and 'limit 0,n' both used; every offset also with counts MaxInt64, MaxInt64-1 and 2^62. A grid point is non-trivial when offset+count > 0 and the unlimited result is non-empty; distinct by (kind,B,r,s,n,mode)."
+	return "exhaustive grid: per batch size B in {1,2,3} (quick) / {1,2,3,4,5,8} (thorough): offset 0..3B+1 x count 0..3B+1 x result size 0..4B+1; for B=32 offsets/counts/sizes around multiples of 32; x {plain over prefix/point-read/full scans, plain with a named field used by the filter, ordered with ties, aggregated (one group per pair), aggregated with groups interleaved in key order, each also ordered, aggregated without GROUP BY (one row), delete over prefix/point-read/full scans} x {row, batch}; 'limit n' and 'limit 0,n' both used; every offset also with counts MaxInt64, MaxInt64-1 and 2^62. A grid point is non-trivial when offset+count > 0 and the unlimited result is non-empty; distinct by (kind,B,r,s,n,mode)."
 }
 
 func (c08) Assumptions() []string {
@@ -135,6 +135,8 @@ func c08Base(kind string, r int) string {
 		return "select key, value where " + w + " order by value desc"
 	case "aggr", "aggr-inter":
 		return "select value, count(1), min(key) where " + w + " group by value"
+	case "plain-named": // a named field used by the filter and shown: the column must stay with its row
+		return "select key, int(substr(key, 1, 3)) * 7 as v7, value where " + w + " & v7 >= 0"
 	case "aggr-all": // no GROUP BY: one row, the limit still applies to it
 		return "select count(1), max(key), sum(strlen(value)) where " + w
 	case "aggr-inter-ordered":
